@@ -14,7 +14,7 @@ from __future__ import annotations
 
 import itertools
 
-from ..absint import Interp, Sym, Lin, Obj, StrV, Raised, explore, show
+from ..absint import has_opaque, Interp, Sym, Lin, Obj, StrV, Raised, explore, show
 from ..bits import Bits, bits_relation
 from ..consts import Folder
 from ..model import AXML, AnalysisError
@@ -62,8 +62,17 @@ def norm_code(c, asg):
     return c
 
 
+_ARITH = {"BitAnd": lambda x, y: x & y, "BitOr": lambda x, y: x | y, "BitXor": lambda x, y: x ^ y, "LShift": lambda x, y: x << y,
+          "RShift": lambda x, y: x >> y, "Add": lambda x, y: x + y, "Sub": lambda x, y: x - y, "Mult": lambda x, y: x * y,
+          "FloorDiv": lambda x, y: x // y, "Mod": lambda x, y: x % y}
+
+
 def _sources(c):
-    """source bits a character code depends on; None when it has a part the interpreter could not evaluate"""
+    """source bits a character code depends on; None when it has a part that cannot be evaluated on concrete bits.
+    Integer arithmetic the bit domain cannot represent exactly (e.g. (x - 49) & 31) is kept by the interpreter as a term over
+    exact leaves; such terms ARE evaluable."""
+    if isinstance(c, bool):
+        return None
     if isinstance(c, int):
         return set()
     if isinstance(c, Bits):
@@ -71,9 +80,18 @@ def _sources(c):
     if isinstance(c, Lin):
         out = set()
         for a in c.terms:
-            if not isinstance(a, Bits) or a.has_top():
+            sa = _sources(a)
+            if sa is None:
                 return None
-            out |= set(a.sources())
+            out |= sa
+        return out
+    if isinstance(c, Sym) and c.op in _ARITH and len(c.args) == 2:
+        out = set()
+        for a in c.args:
+            sa = _sources(a)
+            if sa is None:
+                return None
+            out |= sa
         return out
     return None
 
@@ -83,7 +101,12 @@ def _conc(c, env):
         return c
     if isinstance(c, Bits):
         return c.subst(env).value()
-    return c.const + sum(k * a.subst(env).value() for a, k in c.terms.items())
+    if isinstance(c, Sym):
+        x, y = _conc(c.args[0], env), _conc(c.args[1], env)
+        if c.op in ("LShift", "RShift") and not 0 <= y < 256:
+            raise ValueError("shift count")
+        return _ARITH[c.op](x, y)
+    return c.const + sum(k * _conc(a, env) for a, k in c.terms.items())
 
 
 def code_relation(a, b, asg):
@@ -127,7 +150,9 @@ def chars_relation(got, exp, asg):
 
 def decide(ctx, rule, inst, rel, func, construct, message, detail):
     if rel == "unknown":
-        raise AnalysisError("C30 %s [%s]: cannot decide -- %s" % (rule, inst, message[:600]))
+        # remembered, raised at the end of the run: a later shape may still establish a violation positively
+        ctx.extra.setdefault("_undecided", []).append("C30 %s [%s]: cannot decide -- %s" % (rule, inst, message[:600]))
+        return
     ctx.check(rule, inst, rel == "equal", func, construct, message, detail=detail)
 
 
@@ -170,6 +195,10 @@ def run(ctx):
                 ctx.check("encode-decode", inst, False, fset, "%s-r%s" % (ln, rn), "set/get_language_and_region raises %s for a %s locale" % (r, inst), node=r.node)
                 continue
             asg, word, back = r
+            if any(k[0] == "c" for k in asg):
+                # a branch was taken on a condition the interpreter could not evaluate: the path may be infeasible, nothing is established on it
+                decide(ctx, "encode-decode", inst, "unknown", fset, "", "path through an unevaluated condition / opaque word %s" % show(word)[:120], "")
+                continue
             decide(ctx, "encode-decode", inst, chars_relation(back, chars, asg), fpack if ln == "lll" or rn == "ddd" else fset, "%s-r%s" % (ln, rn),
                       "a %s locale string does not survive set_language_and_region/get_language_and_region: encoded %s as word %s, decoded %s" % (
                           inst, show_chars(chars), show(word)[:160], show(back)[:200]),
@@ -190,7 +219,11 @@ def run(ctx):
 
     lang_words = {"plain": plain("L", 0x60, 5), "packed": packed("L")}
     region_words = {"zero": ([0] * 8, [0] * 8), "plainU": plain("R", 0x40, 5), "plainD": plain("R", 0x30, 4), "packed": packed("R")}
-    for (ln, (l0, l1)), (rn, (r0, r1)) in itertools.product(lang_words.items(), region_words.items()):
+    shapes = list(itertools.product(lang_words.items(), region_words.items()))
+    # the same two packed bytes in the language and in the region half (e.g. 'bcd' and '123'): the halves are decoded one after the
+    # other in one call, so a decoder that remembers what two bytes meant the last time answers the region with the language's letters
+    shapes.append((("packed", lang_words["packed"]), ("packed-same-bytes", lang_words["packed"])))
+    for (ln, (l0, l1)), (rn, (r0, r1)) in shapes:
         inst = "word language=%s region=%s" % (ln, rn)
         ctx.count("word_shapes")
 
@@ -211,15 +244,18 @@ def run(ctx):
                 ctx.check("decode-encode", inst, False, fget, inst, "get/set_language_and_region raises %s for a %s" % (r, inst), node=r.node)
                 continue
             asg, w, s, w2 = r
+            if any(k[0] == "c" for k in asg) or not isinstance(s, StrV) or any(_sources(norm_code(c, asg)) is None for c in s.chars):
+                decide(ctx, "decode-encode", inst, "unknown", fget, "", "path through an unevaluated condition / opaque decoded text %s" % show(s)[:120], "")
+                continue
             w2b = Bits.const(w2) if isinstance(w2, int) and not isinstance(w2, bool) else w2
-            rel = bits_relation(w2b.subst(asg), w.subst(asg)) if isinstance(w2b, Bits) else "unknown"
-            decide(ctx, "decode-encode", inst, rel, fpack if "packed" in (ln, rn) else fset, inst,
+            rel = bits_relation(w2b.subst(asg), w.subst(asg)) if isinstance(w2b, Bits) else code_relation(w2b, w, asg)
+            decide(ctx, "decode-encode", inst, rel, fpack if "packed" in (ln, rn[:6]) else fset, inst,
                       "configuration word %s decodes to %s but encoding that string gives %s" % (w.subst(asg).describe(), show(s)[:160], show(w2b)[:200]),
                       detail="set(get(w)) == w for every %s" % inst)
             # AOSP layout of the decoded text
             if isinstance(s, StrV):
                 _check_layout(ctx, funpack, inst, ln, rn, l0, l1, r0, r1, s, asg)
-    ctx.floor("word_shapes", 8)
+    ctx.floor("word_shapes", 9)
 
     # ---- default locale -------------------------------------------------------------
     def run3(asg):
@@ -234,6 +270,9 @@ def run(ctx):
     for asg0, r in explore(run3):
         ok = not isinstance(r, Raised) and (r[1] == 0 or (isinstance(r[1], Bits) and r[1].is_const() and r[1].value() == 0))
         ctx.check("default-locale", "locale 0", ok, fget, "default locale", "the default locale (0) does not round-trip: %s" % (show(r) if not isinstance(r, Raised) else r))
+    und = ctx.extra.pop("_undecided", None)
+    if und:
+        raise AnalysisError(und[0] + (" (and %d more undecided instances)" % (len(und) - 1) if len(und) > 1 else ""))
     ctx.assume("two-letter language letters lie in 0x60..0x7f, upper-case region letters in 0x40..0x5f, digits in 0x30..0x3f; packed codes are base + 5-bit value")
 
 
@@ -255,7 +294,7 @@ def _check_layout(ctx, funpack, inst, ln, rn, l0, l1, r0, r1, s, asg):
     exp = packed_chars(l0, l1, ord("a")) if ln == "packed" else plain_chars(l0, l1)
     if rn != "zero":
         exp += [ord("-"), ord("r")]
-        exp += packed_chars(r0, r1, ord("0")) if rn == "packed" else plain_chars(r0, r1)
+        exp += packed_chars(r0, r1, ord("0")) if rn.startswith("packed") else plain_chars(r0, r1)
     decide(ctx, "decode-layout", inst, chars_relation(s, exp, asg), funpack, inst,
               "%s decodes to %s; AOSP unpackLanguageOrRegion gives %s" % (inst, show(s)[:200], show_chars([norm_code(c, asg) for c in exp])[:200]),
               detail="decoded text = AOSP layout")
